@@ -10,7 +10,9 @@ S3 == {"s1", "s2", "s3"}
 S2 == {"s1", "s2"}
 Given3 == {<<>>, <<"s1">>, <<"s2">>, <<"s3">>, <<"s1", "s2">>, <<"s3", "s1">>, <<"s2", "s3">>}
 Given2 == {<<>>, <<"s1">>, <<"s2", "s1">>}
+Elem3 == [s \in S3 |-> IF s = "s1" THEN {"H"} ELSE IF s = "s2" THEN {"H", "N"} ELSE {"O"}]
+Elem2 == [s \in S2 |-> IF s = "s1" THEN {"H"} ELSE {"H", "N"}]
 \* history and its length are not part of the explored state
-View == <<alive, want, owner, cell, store>>
-ViewDepth == <<alive, want, owner, cell, store, Len(h)>>
+View == <<alive, want, owner, cell, store, cache>>
+ViewDepth == <<alive, want, owner, cell, store, cache, Len(h), IF h = <<>> THEN <<>> ELSE <<h[Len(h)].act, h[Len(h)].p>> >>
 =============================================================================
